@@ -40,20 +40,29 @@ Inductive unit_ :=
 
 Definition ukind_of (k : tagkind) : ukind := match k with KVar => UVar | KBlock => UBlock | KComment => UComment end.
 
-Fixpoint flatten (segs : list seg) : list unit_ :=
+(* texts are maximal and non-empty: adjacent texts are one text, an empty text is no segment *)
+Fixpoint normalize (segs : list seg) : list seg :=
   match segs with
   | [] => []
   | Text s :: rest =>
-      match flatten rest with
-      | UText s' :: u => UText (s ++ s') :: u
-      | u => UText s :: u
+      match normalize rest with
+      | Text s' :: u => Text (s ++ s') :: u
+      | u => match s with [] => u | _ => Text s :: u end
       end
+  | x :: rest => x :: normalize rest
+  end.
+
+Fixpoint flatten (segs : list seg) : list unit_ :=
+  match segs with
+  | [] => []
+  | Text s :: rest => UText s :: flatten rest
   | Tag k l r :: rest => UTag (ukind_of k) l r :: flatten rest
   | Raw l1 r1 c l2 r2 :: rest => UTag URawOpen l1 r1 :: UText c :: UTag URawClose l2 r2 :: flatten rest
   | Line k _ nl :: rest => ULine k nl :: flatten rest
   end.
 
-(* ---- rule 1 ---- *)
+(* ---- rule 1: the template loses one trailing newline (LF, CRLF or CR): a final text loses it (and
+   disappears when nothing is left), a final line statement / line comment loses its line ending ---- *)
 Definition strip_trailing_newline (s : str) : str :=
   match rev s with
   | a :: r =>
@@ -67,11 +76,12 @@ Definition strip_trailing_newline (s : str) : str :=
   | [] => s
   end.
 
-Fixpoint clip_last (us : list unit_) : list unit_ :=
-  match us with
+Fixpoint clip_segs (segs : list seg) : list seg :=
+  match segs with
   | [] => []
-  | [UText s] => [UText (strip_trailing_newline s)]
-  | u :: r => u :: clip_last r
+  | [Text t] => match strip_trailing_newline t with [] => [] | t' => [Text t'] end
+  | [Line k tr _] => [Line k tr NlNone]
+  | s :: r => s :: clip_segs r
   end.
 
 (* ---- rule 3: the single newline (LF, CRLF or CR) at the start of a text ---- *)
@@ -131,9 +141,10 @@ Fixpoint walk (cfg : settings) (prev : option unit_) (bol : bool) (us : list uni
   | ULine k nl :: r => emit_line k ++ walk cfg (Some (ULine k nl)) (match nl with NlNone => false | _ => true end) r
   end.
 
+Definition effective (cfg : settings) (segs : list seg) : list seg :=
+  let n := normalize segs in if keep_trailing_newline cfg then n else clip_segs n.
 Definition expected (cfg : settings) (segs : list seg) : list eitem :=
-  let us := flatten segs in
-  walk cfg None true (if keep_trailing_newline cfg then us else clip_last us).
+  walk cfg None true (flatten (effective cfg segs)).
 
 (* the rendered output when every variable tag prints "V" and block tags print nothing *)
 Definition c_V := 86.
